@@ -13,5 +13,14 @@ def handleEvmInt (op : String) (j : Json) : Option (P Json) :=
   match op with
   | "evm.int.packed" => some (run encodePacked)
   | "evm.int.padded" => some (run encodePadded)
+  | "evm.int.batch" => some (do
+      -- `{"calls":[{"mode":"packed|padded","type":…,"v":…}]}`: each call is a function of its own
+      -- arguments only; the harness reads all results after the last call returned
+      let outs ← (← getArr j "calls").mapM fun c => do
+        let v ← getInt c "v"
+        let t ← getStr c "type"
+        let m ← getStr c "mode"
+        pure (jRes jBytes (if m == "packed" then encodePacked v t else encodePadded v t))
+      pure (Json.mkObj [("ok", .arr outs.toArray)]))
   | _ => none
 end Driver
